@@ -11,6 +11,7 @@ from ..core.loader import AnalysisError
 from ..core.report import norm
 from ..core.symtab import struct_items
 from ..engines import idempotent, ordereval, wire
+from ..engines.ordereval import Obj
 from . import c09
 
 IMG = "spsdk/sbfile/sb31/images.py"
@@ -74,49 +75,101 @@ def rule_chain(ctx) -> None:
     packs = [c for c in A.calls_in(pb.node, "pack")]
     if len(packs) != 1:
         raise AnalysisError("C05.chain-shape: _process_block packs the block record exactly once")
-    args = [norm(a) for a in packs[0].args[1:]]
-    fmt = packs[0].args[0]
-    fmt_ok = isinstance(fmt, ast.JoinedStr) and norm(fmt) == "f'<L{len(self.final_hash)}s{len(encrypted_block)}s'"
-    chk.decide(args == ["block_number", "self.final_hash", "encrypted_block"] and fmt_ok, "C05.chain-shape", pb.qual + " record", "block record = number | hash of the next block | (encrypted) data",
-               f"pack({norm(fmt)}, {args})", "pack('<L{hash}s{data}s', block_number, self.final_hash, encrypted_block)", A.loc(IMG, packs[0]))
-    # final_hash <- hash of that very record, with the container's hash type
-    st = [n for n in A.walk_no_nested(pb.node) if isinstance(n, ast.Assign) and norm(n.targets[0]) == "self.final_hash"]
-    v = norm(A.inline_locals(pb.node, st[0].value)) if len(st) == 1 else ""
-    rec_name = norm(A.enclosing_stmt(packs[0]).targets[0]) if isinstance(A.enclosing_stmt(packs[0]), ast.Assign) else "?"
-    ok = bool(st) and st[0].lineno > packs[0].lineno and v.startswith("get_hash(pack(") and v.endswith(", self.hash_type)")
-    r = A.returns_in(pb.node)
-    chk.decide(ok and bool(r) and norm(r[-1].value) == rec_name, "C05.chain-shape", pb.qual + " link", "final_hash becomes the hash (container hash type) of the record just built, and that record is returned", v[:120], "self.final_hash = get_hash(full_block, self.hash_type)", A.loc(IMG, pb.node))
-    # same block number feeds the key derivation and the record
-    gk = [c for c in A.calls_in(pb.node, "get_block_key")]
-    chk.decide(bool(gk) and [norm(a) for a in gk[0].args] == ["block_number"], "C05.chain-shape", pb.qual + " key", "block key is derived from the block's own number", norm(gk[0]) if gk else "", "get_block_key(block_number)", A.loc(IMG, pb.node))
-    enc = [c for c in A.calls_in(pb.node, "aes_cbc_encrypt")]
-    chk.decide(bool(enc) and [norm(a) for a in enc[0].args] == ["block_key", "block_data"] and not enc[0].keywords, "C05.chain-shape", pb.qual + " cipher", "AES-CBC(block key, block data) with the zero IV", norm(enc[0]) if enc else "", "aes_cbc_encrypt(block_key, block_data)", A.loc(IMG, pb.node))
-    # blocks processed last-to-first, numbered from 1, re-reversed
+    fmt = A.inline_locals(pb.node, packs[0].args[0])
+    fmt_ok = isinstance(fmt, ast.JoinedStr) and len(fmt.values) == 5 and [v.value for v in fmt.values if isinstance(v, ast.Constant)] == ["<L", "s", "s"] and len(packs[0].args) == 4 \
+        and all(isinstance(v, ast.FormattedValue) and norm(v.value) == f"len({norm(a)})" for v, a in zip([fmt.values[1], fmt.values[3]], packs[0].args[2:4]))
+    chk.decide(fmt_ok, "C05.chain-shape", pb.qual + " format", "record format = <L | hash-length bytes | data-length bytes, each length taken from the very argument packed there", f"pack({norm(fmt)}, {[norm(a) for a in packs[0].args[1:]]})", "", A.loc(IMG, packs[0]))
+    # the function evaluated on a model: (encrypted?, key derivator?) x symbolic hash / cipher / key derivation
+    probs = []
+    for enc in (True, False):
+        for kd in (True, False):
+            kdo = Obj(_kd=True) if kd else None
+            me = Obj(is_encrypted=enc, key_derivator=kdo, final_hash=b"HH", hash_type="T")
+
+            def cv(c: ast.Call, ev):
+                f = norm(c.func)
+                if f == "self.key_derivator.get_block_key" and len(c.args) == 1 and ev.ev(c.func.value.value if False else ast.parse("self.key_derivator", mode="eval").body) is not None:
+                    return b"K" + bytes([ev.ev(c.args[0])])
+                if f == "aes_cbc_encrypt" and len(c.args) == 2 and not c.keywords:
+                    return b"E" + ev.ev(c.args[0]) + ev.ev(c.args[1])
+                if f in ("pack", "struct.pack"):
+                    return ("REC",) + tuple(ev.ev(a) for a in c.args[1:])
+                if f == "get_hash" and len(c.args) + len(c.keywords) == 2:
+                    return ("HASH", ev.ev(c.args[0]), ev.ev(A.arg_of(c, 1, "algorithm")))
+                return ordereval.NOT_MODELLED
+            try:
+                out = ordereval.Evaluator({"self": me, "block_number": 2, "block_data": b"dd"}, None, opaque_return=False, call_value=cv).run(A.body_of(pb.node))
+            except ordereval.Unsupported as ex:
+                raise AnalysisError(f"C05.chain-shape: _process_block left the fragment: {ex}")
+            if enc and not kd:
+                if out.kind != "raise":
+                    probs.append(f"encrypted container without key derivator: {out.kind} (expected an error)")
+                continue
+            data = b"EK\x02dd" if enc else b"dd"
+            rec = ("REC", 2, b"HH", data)
+            if not (out.kind == "return" and out.value == rec):
+                probs.append(f"encrypted={enc}: returns {out.value!r}, expected record (number, previous final_hash, {'AES-CBC(block key(number), data)' if enc else 'data'})")
+            elif me.__dict__.get("final_hash") != ("HASH", rec, "T"):
+                probs.append(f"encrypted={enc}: final_hash becomes {me.__dict__.get('final_hash')!r}, expected hash of the record with the container hash type")
+    chk.decide(not probs, "C05.chain-shape", pb.qual + " record", "block record = number | hash of the next block | (encrypted) data; key from the block's own number; final_hash <- hash(record, container hash type)",
+               "; ".join(probs), "", A.loc(IMG, pb.node))
+    # blocks processed last-to-first, numbered from 1, emitted in forward order
     pc = ctx.own(IMG, "SecureBinary31Commands", "process_cmd_blocks_to_export")
-    comp = [n for n in A.walk_no_nested(pc.node) if isinstance(n, ast.ListComp)]
-    ok = False
-    if comp:
-        it = norm(comp[0].generators[0].iter)
-        elt = norm(comp[0].elt)
-        tgt = norm(comp[0].generators[0].target)
-        ok = it == "reversed(list(enumerate(data_blocks, start=1)))" and elt == "self._process_block(block_number, block_data)" and tgt == "(block_number, block_data)"
-    fin = norm(A.inline_locals(pc.node, A.returns_in(pc.node)[-1].value)) if A.returns_in(pc.node) else ""
-    chk.decide(ok and fin.startswith("b''.join(reversed("), "C05.chain-shape", pc.qual, "blocks are processed from the last to the first (numbers start at 1) and emitted in forward order", f"iter {norm(comp[0].generators[0].iter) if comp else ''} -> {fin[:60]}", "reversed(list(enumerate(data_blocks, start=1))) ... b''.join(reversed(processed))", A.loc(IMG, pc.node))
-    bc = [n for n in A.walk_no_nested(pc.node) if isinstance(n, ast.Assign) and norm(n.targets[0]) == "self.block_count"]
-    chk.decide(bool(bc) and norm(bc[0].value) == "len(data_blocks)", "C05.chain-shape", pc.qual + " count", "block_count is the number of blocks emitted", norm(bc[0]) if bc else "", "self.block_count = len(data_blocks)", A.loc(IMG, pc.node))
+    probs = []
+    for nb in (0, 1, 3):
+        blocks = tuple(bytes([0x61 + i]) * 2 for i in range(nb))
+        log: List[Any] = []
+        me = Obj(hash_type="T", final_hash=b"old", block_count=99)
+
+        def cv2(c: ast.Call, ev, log=log):
+            f = norm(c.func)
+            if f == "get_hash_length" and len(c.args) == 1:
+                return 2
+            if f == "self._process_block" and len(c.args) + len(c.keywords) == 2:
+                n_, d_ = ev.ev(A.arg_of(c, 0, "block_number")), ev.ev(A.arg_of(c, 1, "block_data"))
+                log.append((n_, d_, ev.ev(ast.parse("self.final_hash", mode="eval").body)))
+                return bytes([n_]) + d_
+            return ordereval.NOT_MODELLED
+        try:
+            out = ordereval.Evaluator({"self": me, "data_blocks": blocks}, None, opaque_return=False, call_value=cv2).run(A.body_of(pc.node))
+        except ordereval.Unsupported as ex:
+            raise AnalysisError(f"C05.chain-shape: process_cmd_blocks_to_export left the fragment: {ex}")
+        want_log = [(i + 1, blocks[i]) for i in reversed(range(nb))]
+        if [(a_, b_) for a_, b_, _ in log] != want_log:
+            probs.append(f"{nb} blocks: processed as {[(a_, b_) for a_, b_, _ in log]}, expected {want_log}")
+        elif log and log[0][2] != bytes(2):
+            probs.append(f"{nb} blocks: chain starts from final_hash {log[0][2]!r}, expected zeros of the hash length")
+        elif not (out.kind == "return" and out.value == b"".join(bytes([i + 1]) + blocks[i] for i in range(nb))):
+            probs.append(f"{nb} blocks: emits {out.value!r}")
+        elif me.__dict__.get("block_count") != nb:
+            probs.append(f"{nb} blocks: block_count {me.__dict__.get('block_count')}")
+    chk.decide(not probs, "C05.chain-shape", pc.qual, "blocks are processed from the last to the first (numbers start at 1, chain seeded with zeros) and emitted in forward order; block_count = number of blocks", "; ".join(probs[:2]), "", A.loc(IMG, pc.node))
     # container: header | hash of block 1 | cert block | signature over everything before | blocks
     ex = ctx.own(IMG, "SecureBinary31", "export")
-    adds = [norm(n.value) for n in A.body_of(ex.node) if isinstance(n, ast.AugAssign) and norm(n.target) == "final_data"]
-    want = ["self.sb_header.export()", "self.sb_commands.final_hash", "cert_block_data", "self.signature_provider.get_signature(final_data)", "sb3_commands_data"]
-    chk.decide(adds == want, "C05.chain-shape", ex.qual + " order", "header | hash of data block 1 | certificate block | signature over all of that | data blocks", f"{adds}", f"{want}", A.loc(IMG, ex.node))
-    body = A.body_of(ex.node)
-    def line_of(txt: str) -> int:
-        for s in body:
-            if txt in norm(s):
-                return s.lineno
-        return -1
-    l_cmd, l_upd, l_hdr, l_hash = line_of("self.sb_commands.export()"), line_of("self.sb_header.update("), line_of("final_data += self.sb_header.export()"), line_of("final_data += self.sb_commands.final_hash")
-    chk.decide(0 < l_cmd < l_upd < l_hdr < l_hash, "C05.chain-shape", ex.qual + " sequencing", "commands are exported (chain computed) before the header is updated and before final_hash is read", f"lines cmd={l_cmd} update={l_upd} header={l_hdr} hash={l_hash}", "sb_commands.export() < sb_header.update() < sb_header.export() < read final_hash", A.loc(IMG, ex.node))
+    # (read off the symbolic paths: a += chain, one join or intermediate locals give the same part list and the same event order)
+    sp = [q for q in A.spaths(ex.node) if q.end == "return" and q.value is not None]
+    want = ["self.sb_header.export()", "self.sb_commands.final_hash", "self.cert_block.export()", "SIGNATURE", "self.sb_commands.export()"]
+    want_nc = [w if w != "self.cert_block.export()" else "cert_block" for w in want]  # a caller-supplied certificate block
+    probs, seq_ok = [], bool(sp)
+    for q in sp:
+        parts = []
+        for x in A.flat_concat(q.value):
+            if isinstance(x, ast.Call) and norm(x.func) == "self.signature_provider.get_signature" and len(x.args) == 1:
+                sig_over = [norm(y) for y in A.flat_concat(x.args[0])]
+                if sig_over != parts:
+                    probs.append(f"signature covers {sig_over}, emitted before it {parts}")
+                parts.append("SIGNATURE")
+            else:
+                parts.append(norm(x))
+        if parts != (want_nc if q.assumes("cert_block", True) else want):
+            probs.append(f"{parts}")
+        ev = [norm(n) for n in A.eval_order(q.stmts) if isinstance(n, (ast.Call, ast.Attribute))]
+        def first(txt, ev=ev):
+            return next((i for i, t in enumerate(ev) if t == txt or (txt.endswith("(") and t.startswith(txt))), -1)
+        idx = [first("self.sb_commands.export()"), first("self.sb_header.update("), first("self.sb_header.export()"), first("self.sb_commands.final_hash")]
+        seq_ok = seq_ok and idx[0] >= 0 and idx == sorted(idx) and len(set(idx)) == 4
+    chk.decide(bool(sp) and not probs, "C05.chain-shape", ex.qual + " order", "header | hash of data block 1 | certificate block | signature over all of that | data blocks", "; ".join(probs[:2]), f"{want}", A.loc(IMG, ex.node))
+    chk.decide(seq_ok, "C05.chain-shape", ex.qual + " sequencing", "commands are exported (chain computed) before the header is updated and before final_hash is read", "", "sb_commands.export() < sb_header.update() < sb_header.export() < read final_hash", A.loc(IMG, ex.node))
     upd = ctx.own(IMG, "SecureBinary31Header", "update")
     stores = [norm(n) for n in A.body_of(upd.node) if isinstance(n, (ast.Assign, ast.AugAssign))]
     want_u = ["hash_size = get_hash_length(self.hash_type)", "self.block_count = commands.block_count", "self.image_total_length = self.HEADER_SIZE + hash_size + cert_block.expected_size", "self.image_total_length += 2 * hash_size"]
@@ -158,9 +211,8 @@ def rule_formulas(ctx) -> None:
     cmds = ctx.cls(IMG, "SecureBinary31Commands")
     chunk = prog.fold(cmds.consts.get("DATA_CHUNK_LENGTH"), cmds.module, cmds)
     for H in (32, 48):
-        sym = lambda x, H=H: H if norm(x) == "get_hash_length(self.hash_type)" else None  # noqa: E731
-        v1 = ordereval.Evaluator({}, sym, opaque_return=False).run(A.body_of(cbo.node)).value
-        v2 = ordereval.Evaluator({}, sym, opaque_return=False).run(A.body_of(bs.node)).value
+        v1 = ordereval.Evaluator({}, ctx.fold_sym(cbo, {"get_hash_length(self.hash_type)": H}), opaque_return=False).run(A.body_of(cbo.node)).value
+        v2 = ordereval.Evaluator({}, ctx.fold_sym(bs, {"get_hash_length(self.hash_type)": H}), opaque_return=False).run(A.body_of(bs.node)).value
         chk.decide(v1 == size + H, "C05.header-lengths", f"{cbo.qual} (hash {H})", "certificate block starts right after header + hash of block 1", f"{v1}", f"{size + H}", A.loc(IMG, cbo.node))
         chk.decide(v2 == 4 + chunk + H, "C05.header-lengths", f"{bs.qual} (hash {H})", "block size = number (4) + hash + DATA_CHUNK_LENGTH", f"{v2}", f"{4 + chunk + H}", A.loc(IMG, bs.node))
     pa = ctx.own(IMG, "SecureBinary31Header", "parse")
@@ -173,36 +225,51 @@ def rule_formulas(ctx) -> None:
 
 
 def rule_partition(ctx) -> None:
-    chk, prog = ctx.chk, ctx.prog
+    """get_cmd_blocks_to_export evaluated on a finite model: commands with known bytes, a 3-byte section header that carries the command
+    length, chunk length 4.  Whatever the code shape (split then pad the last chunk, pad then split, loop or comprehension), the
+    result must be the stream header||commands, zero padded to a chunk multiple, cut into consecutive full chunks."""
+    chk = ctx.chk
     fn = ctx.own(IMG, "SecureBinary31Commands", "get_cmd_blocks_to_export")
-    d = A.single_def(fn.node, "data_blocks")
-    if d is None:
-        raise AnalysisError("C05.partition: `data_blocks` is not defined by a single expression")
-    e = A.inline_locals(fn.node, d, keep=["total"])
+    C = 4
     cex = None
     n = 0
-    C = 4
-    for L in range(1, 3 * C + 2):
-        total = bytes(range(1, L + 1))
-        sym = lambda x: C if norm(x) in ("self.DATA_CHUNK_LENGTH", "SecureBinary31Commands.DATA_CHUNK_LENGTH", "cls.DATA_CHUNK_LENGTH") else None  # noqa: E731
-        try:
-            blocks = ordereval.Evaluator({"total": total}, sym).ev(e)
-        except ordereval.Unsupported as ex:
-            raise AnalysisError(f"C05.partition: chunking expression left the fragment: {ex}")
-        n += 1
-        ok = isinstance(blocks, tuple) and b"".join(blocks) == total and all(len(b) == C for b in blocks[:-1]) and all(len(b) > 0 for b in blocks) and len(blocks) == -(-L // C)
-        if not ok and cex is None:
-            cex = (L, [len(b) for b in blocks] if isinstance(blocks, tuple) else blocks)
+
+    def pad(b: bytes, al: int) -> bytes:
+        return b + bytes((-len(b)) % al)
+
+    for L in range(0, 3 * C + 2):
+        for ncmd in (1, 2):
+            payload = bytes(range(1, L + 1))
+            cut = L // 2 if ncmd == 2 else L
+            cmds = tuple(Obj(_bytes=x) for x in ((payload[:cut], payload[cut:]) if ncmd == 2 else (payload,)))
+
+            def cv(c: ast.Call, ev):
+                f = norm(c.func)
+                if f == "CmdSectionHeader" and len(c.keywords) == 1 and c.keywords[0].arg == "length" and not c.args:
+                    return Obj(_bytes=b"\xaa\xbb" + bytes([ev.ev(c.keywords[0].value)]))
+                if isinstance(c.func, ast.Attribute) and c.func.attr == "export" and not c.args and not c.keywords:
+                    o = ev.ev(c.func.value)
+                    if isinstance(o, Obj) and "_bytes" in o.__dict__:
+                        return o.__dict__["_bytes"]
+                if f == "align_block":
+                    al = A.arg_of(c, 1, "alignment")
+                    if len(c.args) + len(c.keywords) == 2 and al is not None:
+                        return pad(ev.ev(c.args[0]), ev.ev(al))
+                return ordereval.NOT_MODELLED
+            me = Obj(commands=cmds, DATA_CHUNK_LENGTH=C)
+            try:
+                out = ordereval.Evaluator({"self": me}, None, opaque_return=False, call_value=cv).run(A.body_of(fn.node))
+            except ordereval.Unsupported as ex:
+                raise AnalysisError(f"C05.partition: get_cmd_blocks_to_export left the fragment: {ex}")
+            n += 1
+            stream = pad(b"\xaa\xbb" + bytes([L]) + payload, C)
+            want = tuple(stream[i:i + C] for i in range(0, len(stream), C))
+            if not (out.kind == "return" and out.value == want) and cex is None:
+                cex = (L, ncmd, out.kind, [x.hex() if isinstance(x, bytes) else x for x in out.value] if isinstance(out.value, tuple) else out.value, [x.hex() for x in want])
     chk.exhaustive_rules.add("C05.partition")
-    chk.decide(cex is None, "C05.partition", fn.qual, f"the stream is cut into ceil(len/chunk) non-empty consecutive chunks that concatenate to the stream ({n} lengths around the chunk boundaries)",
-               f"stream of {cex[0]} bytes with chunk {C}: chunk lengths {cex[1]}" if cex else "", "consecutive non-empty chunks, all full but the last", A.loc(IMG, fn.node))
-    pad = [n2 for n2 in A.body_of(fn.node) if isinstance(n2, ast.Assign) and norm(n2.targets[0]) == "data_blocks[-1]"]
-    ok = bool(pad) and norm(pad[0].value) in ("align_block(data_blocks[-1], alignment=self.DATA_CHUNK_LENGTH)", "align_block(data_blocks[-1], self.DATA_CHUNK_LENGTH)")
-    chk.decide(ok, "C05.partition", fn.qual + " padding", "the last chunk is padded to the chunk length", norm(pad[0]) if pad else "", "", A.loc(IMG, fn.node))
-    tot = A.single_def(fn.node, "total")
-    sh = A.single_def(fn.node, "section_header")
-    ok = tot is not None and norm(A.inline_locals(fn.node, tot)) == "CmdSectionHeader(length=len(b''.join([command.export() for command in self.commands]))).export() + b''.join([command.export() for command in self.commands])"
-    chk.decide(ok, "C05.partition", fn.qual + " stream", "stream = section header (length of the command bytes) followed by the commands in order", norm(A.inline_locals(fn.node, tot))[:150] if tot is not None else "", "", A.loc(IMG, fn.node))
+    chk.decide(cex is None, "C05.partition", fn.qual, f"stream = section header (length of the command bytes) || commands in order, zero padded and cut into consecutive full chunks ({n} models around the chunk boundaries)",
+               f"{cex[1]} command(s) with {cex[0]} bytes, chunk {C}: {cex[2]} {cex[3]}, expected {cex[4]}" if cex else "", "consecutive full chunks of header||commands||zero padding", A.loc(IMG, fn.node))
+    chk.floor("C05.partition", 1)
 
 
 def rule_registry(ctx) -> None:
